@@ -226,6 +226,7 @@ class CaseRunner:
         self.failures_seen = 0
         self.no_shrink = False
         self.first_failure: dict | None = None
+        self.warm = "none"  # first-use order of the universe's classes in this process (part of the history)
         self.history: list = []  # every counted case of the current part, in execution order
 
     def run_case(self, part: Part, data: Any, count: bool = True) -> None:
@@ -290,6 +291,7 @@ class CaseRunner:
             "data": json.loads(canonical(data)),
             "clause": clause,
             "detail": detail[:2000],
+            "warm": self.warm,
         }
         if self.first_failure is None:
             self.first_failure = dict(self.failure)
@@ -397,6 +399,13 @@ def run_shard(module: Any, ctx: Ctx) -> dict:
     stats = Stats()
     runner = CaseRunner(ctx, module, stats)
     t0 = time.monotonic()
+    # first-use order of the universe's classes differs between shards (see models_v2.warm)
+    if getattr(module, "WARM_UNIVERSE", True):
+        from pbt import models_v2
+
+        runner.warm = ["none", "bases", "subs"][ctx.shard % 3]
+        models_v2.warm(runner.warm)
+        reset_globals(True)
     only = os.environ.get("VERIF_PARTS")
     for part in module.PARTS:
         if only and part.name not in only.split(","):
@@ -428,7 +437,7 @@ def run_shard(module: Any, ctx: Ctx) -> dict:
     }
     if runner.first_failure is not None:
         # cases executed before (and including) the first failure, for state-dependent failures
-        res["history"] = {"part": runner.first_failure["part"],
+        res["history"] = {"part": runner.first_failure["part"], "warm": runner.warm,
                           "cases": json.loads(canonical(runner.history[-400:]))}
     return res
 
@@ -440,6 +449,10 @@ def replay_case(module: Any, case: dict) -> tuple[bool, str]:
         raise HarnessError(f"unknown part {case['part']!r} in replay")
     # a "sequence" replay runs several cases in one process (failures that need state left
     # behind by earlier cases, e.g. a cache inside the library)
+    if case.get("warm") in ("bases", "subs"):
+        from pbt import models_v2
+
+        models_v2.warm(case["warm"])
     datas = case["sequence"] if "sequence" in case else [case["data"]]
     for k, data in enumerate(datas):
         reset_globals(getattr(module, "CLEAR_MATCH_CACHES", True))
